@@ -13,7 +13,19 @@ Flow: gate -> build props/C04.v -> for every case (object state x method x sched
       methods that the model does not parse).
 """
 import itertools
+import os
+import sys
 import warnings
+
+# A race that leaves a cached helper half-updated can hand inconsistent shapes to a numba kernel, which then
+# writes out of bounds and aborts the whole process (seen: "corrupted size vs. prev_size").  With bounds
+# checking the same event is a clean IndexError in the offending thread = a reportable failing schedule.
+# Results are bit-identical; the compiled kernels are cached in a private directory.
+BOUNDSCHECK_ACTIVE = 'numba' not in sys.modules
+if BOUNDSCHECK_ACTIVE:
+    os.environ['NUMBA_BOUNDSCHECK'] = '1'
+    os.environ['NUMBA_CACHE_DIR'] = os.environ.get('NUMBA_CACHE_DIR', '/verif/.cache/numba').rstrip('/') + '_c04_boundscheck'
+    os.makedirs(os.environ['NUMBA_CACHE_DIR'], exist_ok=True)
 
 import numpy as np
 
@@ -122,6 +134,8 @@ def make_obj(kind):
             f.poly(y0, poly_order=int(kind[6:]), weights=W1)
         elif kind.startswith('spl:'):
             f.pspline_asls(y0, num_knots=int(kind[4:]), max_iter=1)
+        elif kind.startswith('whit:'):
+            f.asls(y0, lam=10, diff_order=int(kind[5:]), max_iter=1)
         return f
 
 
@@ -134,6 +148,8 @@ def make_obj2(kind):
             warnings.simplefilter('ignore')
             if w[0] == 's':
                 f.pspline_asls(ydata2(98), num_knots=int(w[1:]), lam=10, max_iter=1)
+            elif w[0] == 'p':
+                f.poly(ydata2(98), poly_order=int(w[1:]))
             else:
                 f.pspline_iasls(ydata2(98), num_knots=int(w[1:]), lam=10, max_iter=1)
         return f
@@ -524,7 +540,7 @@ def coq_check(ctx, lits, meta, tag, tolerate=False):
 
 def model_cases(ctx):
     lits, meta = [], []
-    ex = ctx.n(3, 5)
+    ex = ctx.n(3, 4)
     samp = ctx.n(4, 30)
     plan = []
     for name in MODEL_METHODS:
@@ -561,7 +577,7 @@ def first_call_cases(ctx, lits, meta):
     for name in ('poly', 'modpoly', 'pspline_asls', 'rubberband'):
         ser = serial_reference('nox', name, 1)
         steps = len(codes(ser['events'][0]))
-        scheds = [[0, 0, 1, 1]] + schedules_for(ctx, 'nox', name, 2, steps, ctx.n(4, 6) if name == 'poly' else 2, ctx.n(3, 20))
+        scheds = [[0, 0, 1, 1]] + schedules_for(ctx, 'nox', name, 2, steps, ctx.n(4, 5) if name == 'poly' else 2, ctx.n(3, 20))
         run_case_group(ctx, 'nox', name, 2, scheds, lits, meta, True)
     run_case_group(ctx, 'nox', 'poly', 3, schedules_for(ctx, 'nox', 'poly', 3, 20, 0, ctx.n(5, 40)), lits, meta, True)
 
@@ -1082,12 +1098,13 @@ def first_call_sweep(ctx):
 # ------------------------------------------------------------------------------------------------
 # the shared heap is immutable (value abstraction of the models) + source-line-granular pre-emption
 
-LINE_METHODS = [   # (two_d, method key, kinds): every user of a cached helper inside an iterative body, warm and cold
-    (False, 'pspline_asls', ('spl:8', 'x')), (False, 'mixture_model', ('spl:8', 'x')), (False, 'pspline_iasls', ('spl:8',)),
-    (False, 'irsqr', ('spl:8', 'x')), (False, 'modpoly', ('warm:2', 'x')), (False, 'imodpoly', ('warm:2',)),
-    (False, 'loess', ('warm:1',)), (False, 'quant_reg', ('warm:2',)), (False, 'goldindec', ('warm:2',)),
-    (False, 'iasls', ('warm:2',)), (False, 'asls', ('x',)),
-    (True, 'pspline_asls', ('xz+s5',)), (True, 'pspline_iasls', ('xz+l5',)), (True, 'modpoly', ('xz',)),
+LINE_METHODS = [   # (two_d, method key, object states): every user of a cached helper inside an iterative body; cache
+    # warm with the SAME key, warm with a DIFFERENT key (other knots / larger / smaller Vandermonde), and cold
+    (False, 'pspline_asls', ('spl:8', 'spl:6', 'x')), (False, 'mixture_model', ('spl:8', 'spl:6')), (False, 'pspline_iasls', ('spl:8', 'spl:6')),
+    (False, 'irsqr', ('spl:6', 'x')), (False, 'modpoly', ('warm:2', 'warm:5', 'warm:1', 'x')), (False, 'imodpoly', ('warm:2', 'warm:5')),
+    (False, 'poly', ('warm:5', 'warm:1')), (False, 'loess', ('warm:1', 'warm:3')), (False, 'quant_reg', ('warm:2', 'warm:1')),
+    (False, 'goldindec', ('warm:5',)), (False, 'iasls', ('warm:2', 'warm:5')), (False, 'asls', ('x', 'whit:1')),
+    (True, 'pspline_asls', ('xz+s5', 'xz+s4')), (True, 'pspline_iasls', ('xz+l5', 'xz+s4')), (True, 'modpoly', ('xz', 'xz+p3')),
 ]
 MODEL_METHODS['irsqr'] = {'num_knots': 8, 'lam': 10, 'max_iter': 3}
 
@@ -1141,7 +1158,7 @@ def heap_cases(ctx):
             meth, kw, mk, ys = _line_setup(two_d, name, kind)
             f = mk()
             r = LN.LineRun(call_job(f, meth, kw, ys[0]), monitor=f).run()
-            directed[(two_d, name, kind)] = (r.count, [m[0] for m in r.mut])
+            directed[(two_d, name, kind)] = (r.count, [m[0] for m in r.mut], list(r.helper_lines))
             ctx.case(('heap', two_d, name, kind), kind='heap-digest')
             if r.mut:
                 bad.append(f'{"2-D " if two_d else ""}{name} on {kind}: {r.mut[0][2][:2]} changed in place at {r.mut[0][1]} ({len(r.mut)} times)')
@@ -1151,12 +1168,17 @@ def heap_cases(ctx):
         ctx.discharged.append(ob2)
     # (3) line-granular pre-emption: A paused at its k-th executed line, B runs its whole call, A resumes
     nrun = 0
-    for (two_d, name, kind), (count, muts) in directed.items():
+    for (two_d, name, kind), (count, muts, hlines) in directed.items():
         ks = set()
         for mline in muts[:40]:
             ks.update(range(mline, mline + 4))          # directed by the in-place writes found above
+        # lines executed inside methods of the cached-helper classes first (constructors, recalc / reset methods,
+        # lazy properties): the windows in which a helper object is half-updated
+        hl = hlines if ctx.tier == 'thorough' else hlines[:: max(1, len(hlines) // 45)]
+        ks.update(hl)
+        ks.update(h + 1 for h in hl[-1:])
         if ctx.tier == 'thorough' or muts:
-            stride = (1 if muts else 2) if ctx.tier == 'thorough' else max(1, count // 60)
+            stride = (1 if muts else 3) if ctx.tier == 'thorough' else max(1, count // 60)
         else:
             stride = max(1, count // 28)
         ks.update(range(1 + ctx.rng.randrange(stride), count + 1, stride))
